@@ -113,6 +113,17 @@ FAULTS = [
     ("wire zq : «300»;", "InvalidWireWidth"),
     ("wire zq : 8; zq = «999999999999999999999999999999999999999999999»;", "InvalidConstant"),
     ("wire zq : 8; zq = 1 «$» 2;", "LexicalError"),
+    # every way a literal can be out of range: decimal, hexadecimal, binary with more than 128 digits
+    ("wire zq : 8; zq = «0x%s»;" % ("f" * 33), "InvalidConstant"),
+    ("wire zq : 8; zq = «0x1%s» + 1;" % ("0" * 32), "InvalidConstant"),
+    ("wire zq : 8; zq = «0b%s»;" % ("1" * 129), "InvalidConstant"),
+    ("wire zq : 8; zq = 2 + «0b%s»;" % ("01" * 100), "InvalidConstant"),
+    ("wire zq : 8; zq = «340282366920938463463374607431768211456»;", "InvalidConstant"),
+    ("wire zq : 8; zq = 1 «@»;", "LexicalError"),
+    ("wire zq : 8; zq = 1 «.» 2;", "LexicalError"),
+    ("wire zq : 8; zq = 0b1«2»;", "LexicalError"),
+    ("wire zq : 8; zq = 0x«g»;", "LexicalError"),
+    ("wire zq : 8; zq = 0b«2»;", "LexicalError"),
     ("wire zq : 4; zq = «0b11111»;", "MismatchedWireWidths"),
     ("wire zq : 8; zq = «[ 1 : 1; 1 : 2; ]»;", "MultipleMuxDefaultOption"),
     ("wire zq : 8; zq = «(0b1111)[5..3]»;", "MisorderedBitIndexes"),
